@@ -370,3 +370,227 @@ Proof.
   - split; [reflexivity|]. rewrite (number_decode_digits _ E) in Hd. inversion Hd. reflexivity.
   - rewrite (number_decode_nondigit _ E) in Hd. discriminate.
 Qed.
+
+(* ------------------------------------------------------------------ *)
+(* where the numeric fields of each event come from: always elements of a parameter list
+   (numbers_decode / number_decode, i.e. clamped unbounded decimal values by
+   numbers_decode_values / number_decode_digits), minus one where the protocol is one-based;
+   bit sets are masks of such a value *)
+
+Ltac split_matches H :=
+  repeat match type of H with
+         | context [match ?x with _ => _ end] => destruct x eqn:?; try discriminate
+         end.
+
+Theorem dec_mouse_spec data name mode row col :
+  dec_mouse data = Ok (RSome (PMouse name mode row col)) ->
+  exists body e rest last,
+    mid data 3 1 = Ok body /\ numbers_decode body 59 = e :: (col + 1) :: (row + 1) :: rest /\
+    index data (length data - 1) = Ok last /\
+    mode = (let m := N.land (N.land (N.shiftr e 2) 7) 511 in if last =? 77 then N.lor m 256 else m).
+Proof.
+  unfold dec_mouse. destruct (mid data 3 1) as [body| | |]; cbn [bind]; try discriminate.
+  destruct (numbers_decode body 59) as [|e [|c [|r rest]]] eqn:En; try discriminate.
+  destruct (checked_sub1 c) as [col'|] eqn:Ec; [|discriminate].
+  destruct (checked_sub1 r) as [row'|] eqn:Er; [|discriminate].
+  destruct (index data (length data - 1)) as [last| | |]; cbn [bind]; try discriminate.
+  intros H. apply checked_sub1_spec in Ec, Er. subst c r.
+  exists body, e, rest, last. split; [reflexivity|].
+  assert (col' = col /\ row' = row /\
+          mode = (let m := N.land (N.land (N.shiftr e 2) 7) 511 in if last =? 77 then N.lor m 256 else m))
+    as (-> & -> & ->) by (injection H; intros; subst; auto).
+  split; [exact En|]. split; reflexivity.
+Qed.
+
+Theorem dec_termsize_spec data a b c d :
+  dec_termsize data = Ok (RSome (PSize a b c d)) ->
+  exists p0 cell pix more cb pb r1 r2,
+    split_on 27 data = p0 :: cell :: pix :: more /\
+    mid cell 3 1 = Ok cb /\ numbers_decode cb 59 = a :: b :: r1 /\
+    mid pix 3 1 = Ok pb /\ numbers_decode pb 59 = c :: d :: r2.
+Proof.
+  unfold dec_termsize. destruct (split_on 27 data) as [|p0 [|cell rest]]; try discriminate.
+  destruct (mid cell 3 1) as [cb| | |] eqn:Mc; cbn [bind]; try discriminate.
+  destruct (numbers_decode cb 59) as [|ch [|cw r1]] eqn:E1; try discriminate.
+  destruct rest as [|pix more]; [discriminate|].
+  destruct (mid pix 3 1) as [pb| | |] eqn:Mp; cbn [bind]; try discriminate.
+  destruct (numbers_decode pb 59) as [|ph [|pw r2]] eqn:E2; try discriminate.
+  intros H; inversion H; subst. exists p0, cell, pix, more, cb, pb, r1, r2.
+  split; [reflexivity|]. split; [exact Mc|]. split; [exact E1|]. split; [exact Mp|exact E2].
+Qed.
+
+Theorem dec_keylevel_spec data n :
+  dec_kitty_keyboard data = Ok (RSome (PKeyLevel n)) ->
+  exists rest, mid data 2 1 = Ok (63 :: rest) /\ number_decode rest = Some n.
+Proof.
+  unfold dec_kitty_keyboard. destruct (mid data 2 1) as [body| | |]; cbn [bind]; try discriminate.
+  destruct body as [|b0 rest].
+  - intros H. vm_compute in H. discriminate.
+  - destruct (N.eq_dec b0 63) as [->|Hne].
+    + destruct (number_decode rest) as [l|] eqn:E; [|discriminate].
+      intros H; inversion H; subst. exists rest. split; [reflexivity|exact E].
+    + assert (forall (A : Type) (x y : A), match b0 with 63 => x | _ => y end = y) as E.
+      { intros A x y. destruct b0 as [|p]; [reflexivity|].
+        do 6 (destruct p as [p|p|]; try reflexivity). exfalso. apply Hne. reflexivity. }
+      rewrite E. intros H. split_matches H; discriminate.
+Qed.
+
+(* keyboard_decode_key: function keys are an offset of the code, nothing is truncated *)
+Theorem keyboard_key_spec code kind arg :
+  keyboard_key code = Some (kind, arg) ->
+  (kind = 0 /\ code = 27) \/ (kind = 1 /\ code = 13) \/ (kind = 2 /\ code = 9) \/ (kind = 3 /\ code = 127) \/
+  (kind = 4 /\ 57376 <= code <= 57398 /\ arg = code - 57376 + 13) \/
+  (kind = 5 /\ arg = code /\ scalar_ok code = true).
+Proof.
+  unfold keyboard_key.
+  destruct (N.eqb_spec code 27) as [E|_].
+  { intros H; inversion H; subst. left. split; reflexivity. }
+  destruct (N.eqb_spec code 13) as [E|_].
+  { intros H; inversion H; subst. right; left. split; reflexivity. }
+  destruct (N.eqb_spec code 9) as [E|_].
+  { intros H; inversion H; subst. right; right; left. split; reflexivity. }
+  destruct (N.eqb_spec code 127) as [E|_].
+  { intros H; inversion H; subst. right; right; right; left. split; reflexivity. }
+  destruct ((57376 <=? code) && (code <=? 57398)) eqn:EF.
+  - intros H; inversion H; subst. apply andb_prop in EF. destruct EF as [A B]. apply N.leb_le in A, B.
+    right; right; right; right; left. repeat split; assumption.
+  - destruct ((code <=? 4294967295) && negb ((57344 <=? code) && (code <=? 63743))); [|discriminate].
+    unfold char_from_u32. destruct (scalar_ok code) eqn:Es; [|discriminate].
+    intros H; inversion H; subst. right; right; right; right; right. repeat split; try exact Es.
+Qed.
+
+Theorem dec_devattrs_spec data l :
+  dec_devattrs data = Ok (RSome (PDevAttrs l)) ->
+  exists body, mid data 3 1 = Ok body /\ l = to_set (filter (fun v => 0 <? v) (numbers_decode body 59)).
+Proof.
+  unfold dec_devattrs. destruct (mid data 3 1) as [body| | |]; cbn [bind]; try discriminate.
+  intros H; inversion H; subst. exists body. split; reflexivity.
+Qed.
+
+(* kitty image: id and placement are the decoded values of the `i` / `p` keys *)
+Lemma kitty_fields_spec kvs : forall id pl id' pl',
+  kitty_fields kvs id pl = Some (id', pl') ->
+  (id' = id \/ exists v, In ([105], v) kvs /\ number_decode v = Some id') /\
+  (pl' = pl \/ exists v n, In ([112], v) kvs /\ number_decode v = Some n /\ pl' = Some n).
+Proof.
+  induction kvs as [|[k v] r IH]; intros id pl id' pl' H; cbn [kitty_fields] in H.
+  - inversion H; subst. split; left; reflexivity.
+  - destruct (match k with [105] => true | _ => false end) eqn:Ki.
+    + destruct (number_decode v) as [n|] eqn:En; [|discriminate].
+      assert (k = [105]) as -> by (destruct k as [|a [|? ?]]; try discriminate;
+        destruct a as [|p]; try discriminate; do 7 (destruct p as [p|p|]; try discriminate); reflexivity).
+      destruct (IH _ _ _ _ H) as [[->|(v' & Hin & Hv)] Hp]; split.
+      * right. exists v. split; [left; reflexivity|exact En].
+      * destruct Hp as [->|(v2 & n2 & Hin2 & A & B)]; [left; reflexivity|right; exists v2, n2; repeat split; auto; right; exact Hin2].
+      * right. exists v'. split; [right; exact Hin|exact Hv].
+      * destruct Hp as [->|(v2 & n2 & Hin2 & A & B)]; [left; reflexivity|right; exists v2, n2; repeat split; auto; right; exact Hin2].
+    + destruct (match k with [112] => true | _ => false end) eqn:Kp.
+      * destruct (number_decode v) as [n|] eqn:En; [|discriminate].
+        assert (k = [112]) as -> by (destruct k as [|a [|? ?]]; try discriminate;
+          destruct a as [|p]; try discriminate; do 7 (destruct p as [p|p|]; try discriminate); reflexivity).
+        destruct (IH _ _ _ _ H) as [Hi Hp]. split.
+        -- destruct Hi as [->|(v' & Hin & Hv)]; [left; reflexivity|right; exists v'; split; [right; exact Hin|exact Hv]].
+        -- destruct Hp as [->|(v2 & n2 & Hin2 & A & B)];
+             [right; exists v, n; repeat split; auto; left; reflexivity
+             |right; exists v2, n2; repeat split; auto; right; exact Hin2].
+      * destruct (IH _ _ _ _ H) as [Hi Hp]. split.
+        -- destruct Hi as [->|(v' & Hin & Hv)]; [left; reflexivity|right; exists v'; split; [right; exact Hin|exact Hv]].
+        -- destruct Hp as [->|(v2 & n2 & Hin2 & A & B)]; [left; reflexivity|right; exists v2, n2; repeat split; auto; right; exact Hin2].
+Qed.
+
+Theorem dec_kitty_image_spec data id pl err :
+  dec_kitty_image data = Ok (RSome (PKitty id pl err)) ->
+  exists body, mid data 3 2 = Ok body /\
+    let kvs := key_value_decode 44 (fst (split_first 59 body)) in
+    (id = 0 \/ exists v, In ([105], v) kvs /\ number_decode v = Some id) /\
+    (pl = None \/ exists v n, In ([112], v) kvs /\ number_decode v = Some n /\ pl = Some n).
+Proof.
+  unfold dec_kitty_image. destruct (mid data 3 2) as [body| | |]; cbn [bind]; try discriminate.
+  destruct (split_first 59 body) as [head msg] eqn:Es.
+  destruct (kitty_fields (key_value_decode 44 head) 0 None) as [[id' pl']|] eqn:E; [|discriminate].
+  destruct msg as [m|]; [|discriminate]. intros H; inversion H; subst.
+  exists body. split; [reflexivity|]. rewrite Es. cbn [fst]. apply (kitty_fields_spec _ _ _ _ _ E).
+Qed.
+
+(* OSC 4: the palette index is the decoded second field *)
+Theorem dec_osc_palette_spec data idx r :
+  dec_osc data = Ok r -> (r = RSome (PColor 2 idx) \/ r = RExt (PColor 2 idx)) ->
+  exists body a0 a1 rest, split_on 59 body = a0 :: a1 :: rest /\ number_decode a0 = Some 4 /\ number_decode a1 = Some idx.
+Proof.
+  unfold dec_osc. destruct (index data (length data - 1)) as [last| | |]; cbn [bind]; try discriminate.
+  destruct (if last =? 7 then mid data 2 1 else mid data 2 2) as [body| | |]; cbn [bind]; try discriminate.
+  destruct (split_on 59 body) as [|a0 args] eqn:Es; [intros H [E|E]; subst; discriminate|].
+  destruct (number_decode a0) as [id|] eqn:E0; [|intros H [E|E]; subst; discriminate].
+  destruct (N.eqb_spec id 10).
+  { destruct args as [|t ?]; [|destruct (utf8_valid t)]; intros H [E|E]; subst; inversion H. }
+  destruct (N.eqb_spec id 11).
+  { destruct args as [|t ?]; [|destruct (utf8_valid t)]; intros H [E|E]; subst; inversion H. }
+  destruct (N.eqb_spec id 4); [|intros H [E|E]; subst; discriminate].
+  destruct args as [|a1 rest]; [intros H [E|E]; subst; discriminate|].
+  destruct (number_decode a1) as [i|] eqn:E1; [|intros H [E|E]; subst; discriminate].
+  destruct rest as [|t more]; [intros H [E|E]; subst; discriminate|].
+  destruct (utf8_valid t); intros H [E|E]; subst; inversion H; subst.
+  exists body, a0, a1, (t :: more). repeat split; assumption.
+Qed.
+
+(* kitty keyboard key: the key comes from the first number of the first field (1 when there is none),
+   the modifiers are the bit set (m - 1) & 511 of the first number m of the second field.  KeyMod is a
+   set of nine flags (KeyMod::from_bits keeps the known bits, src/keys.rs): bits above are dropped by
+   design, for 2^32 + 1 as for 1025 — a mask, not an arithmetic wrap. *)
+Theorem dec_key_spec data kind arg mode :
+  dec_kitty_keyboard data = Ok (RSome (PKey kind arg mode)) ->
+  exists body codes fields,
+    mid data 2 1 = Ok body /\ split_on 59 body = codes :: fields /\
+    keyboard_key (match numbers_decode codes 58 with c :: _ => c | [] => 1 end) = Some (kind, arg) /\
+    mode = match fields with
+           | [] => 0
+           | modes :: _ => match numbers_decode modes 58 with
+                           | m :: _ => if 1 <? m then N.land (m - 1) 511 else 0
+                           | [] => 0
+                           end
+           end.
+Proof.
+  unfold dec_kitty_keyboard. destruct (mid data 2 1) as [body| | |]; cbn [bind]; try discriminate.
+  assert (Hgen : forall body,
+    match split_on 59 body with
+    | [] => Ok RNone
+    | codes :: fields =>
+        let code := match numbers_decode codes 58 with c :: _ => c | [] => 1 end in
+        match keyboard_key code with
+        | None => Ok RNone
+        | Some (kind, arg) =>
+            match fields with
+            | [] => Ok (RSome (PKey kind arg 0))
+            | modes :: _ =>
+                let ms := numbers_decode modes 58 in
+                let mode := match ms with m :: _ => if 1 <? m then N.land (m - 1) 511 else 0 | [] => 0 end in
+                let event_type := match ms with _ :: t :: _ => t | _ => 0 end in
+                if event_type =? 0 then Ok (RSome (PKey kind arg mode)) else Ok RNone
+            end
+        end
+    end = Ok (RSome (PKey kind arg mode)) ->
+    exists codes fields, split_on 59 body = codes :: fields /\
+      keyboard_key (match numbers_decode codes 58 with c :: _ => c | [] => 1 end) = Some (kind, arg) /\
+      mode = match fields with
+             | [] => 0
+             | modes :: _ => match numbers_decode modes 58 with
+                             | m :: _ => if 1 <? m then N.land (m - 1) 511 else 0
+                             | [] => 0
+                             end
+             end).
+  { intros bd. destruct (split_on 59 bd) as [|codes fields]; [discriminate|]. cbv zeta.
+    destruct (keyboard_key (match numbers_decode codes 58 with c :: _ => c | [] => 1 end)) as [[k a]|] eqn:Ek; [|discriminate].
+    destruct fields as [|modes more].
+    - intros H; inversion H; subst. exists codes, []. repeat split. exact Ek.
+    - destruct (match numbers_decode modes 58 with _ :: t :: _ => t | _ => 0 end =? 0); [|discriminate].
+      intros H; inversion H; subst. exists codes, (modes :: more). repeat split. exact Ek. }
+  destruct body as [|b0 rest].
+  - intros H. destruct (Hgen [] H) as (codes & fields & A & B & C). exists [], codes, fields. repeat split; assumption.
+  - destruct (N.eq_dec b0 63) as [->|Hne].
+    + destruct (number_decode rest); discriminate.
+    + assert (forall (A : Type) (x y : A), match b0 with 63 => x | _ => y end = y) as E.
+      { intros A x y. destruct b0 as [|p]; [reflexivity|].
+        do 6 (destruct p as [p|p|]; try reflexivity). exfalso. apply Hne. reflexivity. }
+      rewrite E. intros H. destruct (Hgen (b0 :: rest) H) as (codes & fields & A & B & C).
+      exists (b0 :: rest), codes, fields. repeat split; assumption.
+Qed.
